@@ -194,6 +194,13 @@ def run_harnesses(scratch, harnesses, log=None):
             undet = [c for c in checks if c["status"] == "UNDETERMINED"]
             if timed_out:
                 st, det = UNDECIDED, "CBMC timed out after %ds" % h.timeout
+            elif h.meta.get("expect") == "panic":
+                # guard harness (#[kani::should_panic]): the deliberate violation must be caught by the stub under test;
+                # if it is not, the harnesses relying on the stub are vacuous -> undecided, never an alarm
+                if verdict == "SUCCESSFUL" and real_fail:
+                    st, det, real_fail = DISCHARGED, "", []
+                else:
+                    st, det, real_fail = UNDECIDED, "vacuity guard: the expected panic did not occur: " + text[-400:], []
             elif real_fail:
                 st = FAILED
                 det = "; ".join("%s [%s] at %s" % (c["desc"], c["id"], c["loc"]) for c in real_fail[:6])
